@@ -1,273 +1,53 @@
-(** C02 proofs, part 3: walking through makeMove / unMakeMove block by block.
-    [St k sqs sc cur]: the position [cur] satisfies the invariant with key offset [k], its board is
-    [sqs] and its scalar fields (side, clocks, castle mask, e.p. square) are [sc]. *)
+(** C02 proofs, part 4: unMakeMove (makeMove p m) = p, and the invariant over histories. *)
 From Coq Require Import ZArith NArith List Bool Lia Btauto.
 From Texel Require Import Chess.Types Chess.Position Chess.PositionSpec Chess.PositionFacts
-  Chess.PositionProofs Chess.PositionProofs2.
+  Chess.PositionProofs Chess.PositionProofs2 Chess.PositionProofs3.
 Import ListNotations.
 Local Open Scope N_scope.
 
-Definition nthP (sqs : list piece) (s : square) : piece := nth (N.to_nat s) sqs EMPTY.
-
-Lemma nthP_updN_eq sqs s x : s < N.of_nat (length sqs) -> nthP (updN s x sqs) s = x.
-Proof. intro H. unfold nthP. apply nth_updN_eq. lia. Qed.
-Lemma nthP_updN_neq sqs s s' x : s <> s' -> nthP (updN s x sqs) s' = nthP sqs s'.
-Proof. intro H. unfold nthP. apply nth_updN_neq. auto. Qed.
-
-Ltac nth_eval :=
-  repeat first [ rewrite nthP_updN_eq by (rewrite ?length_updN; lia)
-               | rewrite nthP_updN_neq by lia ].
-
-Section Walk.
-Variable zk : zkeys.
-Hypothesis EKZ : emptyKeysZero zk.
-
-Definition St (k : N) (sqs : list piece) (sc : bool * Z * Z * N * Z) (cur : position) : Prop :=
-  ConsistentX zk k cur /\ squares cur = sqs /\ scalars cur = sc.
-
-Lemma St_len k sqs sc cur : St k sqs sc cur -> length sqs = 64%nat.
-Proof. intros (C & <- & _). destruct C; auto. Qed.
-Lemma St_pieces k sqs sc cur : St k sqs sc cur -> forall s, nthP sqs s < 13.
-Proof. intros (C & <- & _) s. apply getPiece_lt. destruct C; auto. Qed.
-Lemma St_getPiece k sqs sc cur s : St k sqs sc cur -> getPiece cur s = nthP sqs s.
-Proof. intros (_ & <- & _). reflexivity. Qed.
-Lemma St_scalars k sqs wm h fm cm ep cur :
-  St k sqs (wm, h, fm, cm, ep) cur ->
-  whiteMove cur = wm /\ halfMoveClock cur = h /\ fullMoveCounter cur = fm /\ castleMask cur = cm /\ epSquare cur = ep.
-Proof. intros (_ & _ & E). unfold scalars in E. inversion E; auto. Qed.
-
-Lemma St_setPiece k sqs sc cur sq pc :
-  St k sqs sc cur -> sq < 64 -> pc < 13 -> St k (updN sq pc sqs) sc (setPiece zk cur sq pc).
+(** what [moveOk] says, as propositions *)
+Lemma moveOk_facts p m : moveOk p m = true ->
+  let f := mfrom m in let t := mto m in
+  let pc := getPiece p f in let cap := getPiece p t in let wtm := whiteMove p in
+  let pawn := if wtm then WPAWN else BPAWN in
+  let king := if wtm then WKING else BKING in
+  let rook := if wtm then WROOK else BROOK in
+  f < 64 /\ t < 64 /\ f <> t /\ ownPiece wtm pc = true /\ ownPiece wtm cap = false /\
+  (mpromote m <> EMPTY -> pc = pawn /\ ownPiece wtm (mpromote m) = true) /\
+  (pc = pawn -> Z.of_N t = epSquare p ->
+     cap = EMPTY /\ mpromote m = EMPTY /\
+     (if wtm then 8 <= t /\ getPiece p (t - 8) = BPAWN /\ t <> f + 16
+      else t + 8 < 64 /\ getPiece p (t + 8) = WPAWN /\ t + 16 <> f)) /\
+  (pc = king -> t = f + 2 -> cap = EMPTY /\ f + 3 < 64 /\ getPiece p (f + 1) = EMPTY /\ getPiece p (f + 3) = rook) /\
+  (pc = king -> 2 <= f -> t = f - 2 -> cap = EMPTY /\ 4 <= f /\ getPiece p (f - 1) = EMPTY /\ getPiece p (f - 4) = rook).
 Proof.
-  intros (C & <- & <-) ? ?. split; [|split].
-  - apply setPiece_consistent; auto.
-  - apply squares_setPiece.
-  - apply scalars_setPiece.
+  unfold moveOk. cbv zeta. intro H.
+  apply andb_prop in H as [H Hcas]. apply andb_prop in H as [H Hep]. apply andb_prop in H as [H Hpro].
+  apply andb_prop in H as [H Hcapn]. apply andb_prop in H as [H Hown]. apply andb_prop in H as [H Hne].
+  apply andb_prop in H as [Hf Ht].
+  apply N.ltb_lt in Hf. apply N.ltb_lt in Ht. apply negb_true_iff in Hne. apply N.eqb_neq in Hne.
+  apply negb_true_iff in Hcapn.
+  split; [auto|]. split; [auto|]. split; [auto|]. split; [auto|]. split; [auto|].
+  split; [|split; [|split]].
+  - intro Hp. destruct (N.eqb_spec (mpromote m) EMPTY); [contradiction|].
+    apply andb_prop in Hpro as [Hpro _]. apply andb_prop in Hpro as [Hpro _]. apply andb_prop in Hpro as [Hp1 Hp2].
+    apply N.eqb_eq in Hp1. split; auto.
+  - intros Hpc Hte. rewrite Hpc, Hte, N.eqb_refl, Z.eqb_refl in Hep. cbn [andb] in Hep.
+    apply andb_prop in Hep as [Hep He3]. apply andb_prop in Hep as [He1 He2].
+    apply N.eqb_eq in He1. apply N.eqb_eq in He2. split; [auto|]. split; [auto|].
+    destruct (whiteMove p).
+    + apply andb_prop in He3 as [He3 He6]. apply andb_prop in He3 as [He4 He5].
+      apply N.leb_le in He4. apply N.eqb_eq in He5. apply negb_true_iff in He6. apply N.eqb_neq in He6. auto.
+    + apply andb_prop in He3 as [He3 He6]. apply andb_prop in He3 as [He4 He5].
+      apply N.ltb_lt in He4. apply N.eqb_eq in He5. apply negb_true_iff in He6. apply N.eqb_neq in He6. auto.
+  - intros Hpc Hte. rewrite Hpc, N.eqb_refl in Hcas. apply andb_prop in Hcas as [Hc _].
+    rewrite Hte, N.eqb_refl in Hc.
+    apply andb_prop in Hc as [Hc Hc4]. apply andb_prop in Hc as [Hc Hc3]. apply andb_prop in Hc as [Hc1 Hc2].
+    apply N.eqb_eq in Hc1. apply N.ltb_lt in Hc2. apply N.eqb_eq in Hc3. apply N.eqb_eq in Hc4. auto.
+  Show.
+  - intros Hpc Hf2 Hte. rewrite Hpc, N.eqb_refl in Hcas. apply andb_prop in Hcas as [_ Hc].
+    rewrite Hte, N.eqb_refl in Hc. replace (2 <=? mfrom m) with true in Hc by (symmetry; apply N.leb_le; auto).
+    cbn [andb] in Hc.
+    apply andb_prop in Hc as [Hc Hc4]. apply andb_prop in Hc as [Hc Hc3]. apply andb_prop in Hc as [Hc1 Hc2].
+    apply N.eqb_eq in Hc1. apply N.leb_le in Hc2. apply N.eqb_eq in Hc3. apply N.eqb_eq in Hc4. auto.
 Qed.
-
-Lemma St_clearPiece k sqs sc cur sq :
-  St k sqs sc cur -> sq < 64 -> St k (updN sq EMPTY sqs) sc (clearPiece zk cur sq).
-Proof.
-  intros (C & <- & <-) ?. split; [|split].
-  - apply clearPiece_consistent; auto.
-  - apply squares_clearPiece.
-  - apply scalars_clearPiece.
-Qed.
-
-Lemma St_mPNP k sqs sc cur f t :
-  St k sqs sc cur -> f < 64 -> t < 64 -> f <> t ->
-  1 <= nthP sqs f <= 12 -> isPawnPiece (nthP sqs f) = false -> nthP sqs t = EMPTY ->
-  St k (updN t (nthP sqs f) (updN f EMPTY sqs)) sc (movePieceNotPawn zk cur f t).
-Proof.
-  intros (C & <- & <-) ? ? ? ? ? ?. split; [|split].
-  - apply movePieceNotPawn_consistent; auto.
-  - apply squares_movePieceNotPawn.
-  - apply scalars_movePieceNotPawn.
-Qed.
-
-Lemma St_setEp k sqs wm h fm cm ep cur ep' :
-  St k sqs (wm, h, fm, cm, ep) cur -> St k sqs (wm, h, fm, cm, ep') (setEpSquare zk cur ep').
-Proof.
-  intros (C & <- & E). split; [|split].
-  - apply setEpSquare_consistent; auto.
-  - unfold setEpSquare. destruct (negb _); reflexivity.
-  - unfold scalars in *. inversion E; subst. unfold setEpSquare.
-    destruct (Z.eqb_spec (epSquare cur) ep'); simpl; [congruence | reflexivity].
-Qed.
-
-Lemma St_setCastle k sqs wm h fm cm ep cur cm' :
-  St k sqs (wm, h, fm, cm, ep) cur -> St k sqs (wm, h, fm, cm', ep) (setCastleMask zk cur cm').
-Proof.
-  intros (C & <- & E). split; [|split].
-  - apply setCastleMask_consistent; auto.
-  - unfold setCastleMask. destruct (negb _); reflexivity.
-  - unfold scalars in *. inversion E; subst. unfold setCastleMask.
-    destruct (N.eqb_spec cm' (castleMask cur)); simpl; [congruence | reflexivity].
-Qed.
-
-Lemma St_set_hmc k sqs wm h fm cm ep cur h' :
-  St k sqs (wm, h, fm, cm, ep) cur -> St k sqs (wm, h', fm, cm, ep) (set_halfMoveClock cur h').
-Proof.
-  intros (C & <- & E). split; [|split].
-  - apply set_halfMoveClock_consistent; auto.
-  - reflexivity.
-  - unfold scalars in *. inversion E; subst. reflexivity.
-Qed.
-
-Lemma St_set_fmc k sqs wm h fm cm ep cur fm' :
-  St k sqs (wm, h, fm, cm, ep) cur -> St k sqs (wm, h, fm', cm, ep) (set_fullMoveCounter cur fm').
-Proof.
-  intros (C & <- & E). split; [|split].
-  - apply set_fullMoveCounter_consistent; auto.
-  - reflexivity.
-  - unfold scalars in *. inversion E; subst. reflexivity.
-Qed.
-
-Lemma St_toggle k sqs sc cur :
-  St k sqs sc cur -> St (N.lxor k (zk_white zk)) sqs sc (set_hashKey cur (N.lxor (hashKey cur) (zk_white zk))).
-Proof.
-  intros (C & <- & <-). split; [|split]; try reflexivity. apply toggle_white_key; auto.
-Qed.
-
-Lemma St_flip k sqs wm h fm cm ep cur :
-  St (N.lxor k (zk_white zk)) sqs (wm, h, fm, cm, ep) cur ->
-  St k sqs (negb wm, h, fm, cm, ep) (set_whiteMove cur (negb wm)).
-Proof.
-  intros (C & <- & E). unfold scalars in E. inversion E; subst. split; [|split]; try reflexivity.
-  apply flip_side; auto.
-Qed.
-
-Lemma St_k k k' sqs sc cur : k = k' -> St k sqs sc cur -> St k' sqs sc cur.
-Proof. intros ->; auto. Qed.
-
-(* ------------------------------------------------------------------ *)
-(** * two positions with the same board and scalars that satisfy the invariant are equal
-      (up to the dead EMPTY board) *)
-Lemma St_unique sqs sc a b : St 0 sqs sc a -> St 0 sqs sc b -> normEmpty a = normEmpty b.
-Proof.
-  intros (Ca & Sa & Ea) (Cb & Sb & Eb). destruct Ca, Cb. unfold scalars in *.
-  destruct sc as [[[[wm h] fm] cm] ep]. inversion Ea; inversion Eb; subst.
-  unfold normEmpty. apply pos_eq; proj_simpl; try congruence.
-  - apply (list_ext 0%N). { rewrite !length_updN. congruence. }
-    intros i Hi. rewrite length_updN in Hi.
-    destruct i as [|i].
-    + change 0%nat with (N.to_nat 0). rewrite !nth_updN_eq by (simpl; lia). reflexivity.
-    + change (S i) with (S i). replace (S i) with (N.to_nat (N.of_nat (S i))) by lia.
-      rewrite !nth_updN_neq by lia.
-      fold (ptBB a (N.of_nat (S i))). fold (ptBB b (N.of_nat (S i))).
-      rewrite c_bb, c_bb0 by lia. congruence.
-  - rewrite c_hash, c_hash0. unfold hashOf. congruence.
-Qed.
-
-Lemma list_ext_N sqs sqs' :
-  length sqs = 64%nat -> length sqs' = 64%nat -> (forall s, s < 64 -> nthP sqs s = nthP sqs' s) -> sqs = sqs'.
-Proof.
-  intros H1 H2 H. apply (list_ext EMPTY); [congruence|].
-  intros i Hi. specialize (H (N.of_nat i)). unfold nthP in H. rewrite Nat2N.id in H. apply H. lia.
-Qed.
-
-Lemma St_eq k sqs sqs' sc cur : sqs = sqs' -> St k sqs sc cur -> St k sqs' sc cur.
-Proof. intros ->; auto. Qed.
-
-(* ------------------------------------------------------------------ *)
-(** * the blocks of makeMove *)
-Lemma make_prologue sqs wm h fm cm ep p :
-  St 0 sqs (wm, h, fm, cm, ep) p ->
-  St (zk_white zk) sqs (wm, h, fm, cm, (-1)%Z)
-     (setEpSquare zk (set_hashKey p (N.lxor (hashKey p) (zk_white zk))) (-1)).
-Proof.
-  intro S. apply St_setEp with (ep := ep). apply (St_k (N.lxor 0 (zk_white zk))). apply N.lxor_0_l.
-  apply St_toggle; auto.
-Qed.
-
-Lemma make_epilogue sqs wm h fm cm ep cur m :
-  St (zk_white zk) sqs (wm, h, fm, cm, ep) cur ->
-  exists cm', St 0 sqs (negb wm, h, (if wm then fm else fm + 1)%Z, cm', ep) (mmEpilogue zk cur m wm).
-Proof.
-  intros S. unfold mmEpilogue. cbv zeta. eexists.
-  apply St_flip. apply (St_k (zk_white zk)); [symmetry; apply N.lxor_0_l|].
-  pose proof (St_setCastle _ _ _ _ _ _ _ _
-                (N.land (N.land (castleMask cur) (castleSqMask (mfrom m))) (castleSqMask (mto m))) S) as S1.
-  destruct wm; simpl.
-  - exact S1.
-  - destruct (St_scalars _ _ _ _ _ _ _ _ S1) as (_ & _ & Hfm & _). rewrite Hfm.
-    apply St_set_fmc with (fm := fm). exact S1.
-Qed.
-
-Lemma toSq_plus s d : (0 <= d)%Z -> toSq (sqPlus s d) = s + Z.to_N d.
-Proof. unfold toSq, sqPlus. lia. Qed.
-Lemma toSq_minus s d : (0 <= d)%Z -> Z.to_N d <= s -> toSq (sqPlus s (- d)) = s - Z.to_N d.
-Proof. unfold toSq, sqPlus. lia. Qed.
-
-Section Blocks.
-Variable m : move.
-Let f := mfrom m.
-Let t := mto m.
-
-Lemma quiet_plain k sqs wm h fm cm ep cur pc :
-  St k sqs (wm, h, fm, cm, ep) cur -> f < 64 -> t < 64 -> f <> t ->
-  nthP sqs f = pc -> 1 <= pc <= 12 -> isPawnPiece pc = false -> nthP sqs t = EMPTY ->
-  (isKingPiece pc = false \/ (Z.of_N t <> sqPlus f 2 /\ Z.of_N t <> sqPlus f (-2))%Z) ->
-  St k (updN t pc (updN f EMPTY sqs)) (wm, (h + 1)%Z, fm, cm, ep) (mmQuietBranch zk cur m (sqMask f)).
-Proof.
-  intros S Hf Ht Hne Hpc Hr Hnp Hte Hk.
-  unfold mmQuietBranch. cbv zeta.
-  destruct (St_scalars _ _ _ _ _ _ _ _ S) as (_ & Hh & _). rewrite Hh.
-  pose proof (St_set_hmc _ _ _ _ _ _ _ _ (h + 1)%Z S) as S1.
-  unfold mmCastleBlock. cbv zeta. fold f t.
-  rewrite (kingsAt_spec zk k) by (try apply S1; auto).
-  rewrite (St_getPiece _ _ _ _ f S1), Hpc.
-  assert (G : St k (updN t pc (updN f EMPTY sqs)) (wm, (h + 1)%Z, fm, cm, ep)
-                 (movePieceNotPawn zk (set_halfMoveClock cur (h + 1)%Z) f t)).
-  { rewrite <- Hpc. apply St_mPNP; auto; rewrite ?Hpc; auto. }
-  destruct Hk as [Hk|[Hk1 Hk2]].
-  - rewrite Hk. exact G.
-  - destruct (isKingPiece pc); auto.
-    destruct (Z.eqb_spec (Z.of_N t) (sqPlus f 2)); [contradiction|].
-    destruct (Z.eqb_spec (Z.of_N t) (sqPlus f (-2))); [contradiction|]. exact G.
-Qed.
-
-Lemma quiet_castleK k sqs wm h fm cm ep cur kg rk :
-  St k sqs (wm, h, fm, cm, ep) cur -> f + 3 < 64 -> t = f + 2 ->
-  nthP sqs f = kg -> isKingPiece kg = true -> nthP sqs t = EMPTY ->
-  nthP sqs (f + 1) = EMPTY -> nthP sqs (f + 3) = rk -> 1 <= rk <= 12 -> isPawnPiece rk = false ->
-  St k (updN t kg (updN f EMPTY (updN (f + 1) rk (updN (f + 3) EMPTY sqs)))) (wm, (h + 1)%Z, fm, cm, ep)
-     (mmQuietBranch zk cur m (sqMask f)).
-Proof.
-  intros S Hf Ht Hkg Hk Hte H1 H3 Hr Hnp.
-  assert (Hlen := St_len _ _ _ _ S).
-  unfold mmQuietBranch. cbv zeta.
-  destruct (St_scalars _ _ _ _ _ _ _ _ S) as (_ & Hh & _). rewrite Hh.
-  pose proof (St_set_hmc _ _ _ _ _ _ _ _ (h + 1)%Z S) as S1.
-  unfold mmCastleBlock. cbv zeta. fold f t.
-  rewrite (kingsAt_spec zk k) by (try apply S1; auto; lia).
-  rewrite (St_getPiece _ _ _ _ f S1), Hkg, Hk.
-  replace (Z.of_N t =? sqPlus f 2)%Z with true by (symmetry; apply Z.eqb_eq; unfold sqPlus; lia).
-  replace (toSq (sqPlus f 3)) with (f + 3) by (unfold toSq, sqPlus; lia).
-  replace (toSq (sqPlus f 1)) with (f + 1) by (unfold toSq, sqPlus; lia).
-  assert (S2 : St k (updN (f + 1) rk (updN (f + 3) EMPTY sqs)) (wm, (h + 1)%Z, fm, cm, ep)
-                  (movePieceNotPawn zk (set_halfMoveClock cur (h + 1)%Z) (f + 3) (f + 1))).
-  { rewrite <- H3. apply St_mPNP; auto; rewrite ?H3; auto; lia. }
-  assert (Hkg2 : nthP (updN (f + 1) rk (updN (f + 3) EMPTY sqs)) f = kg) by (nth_eval; auto).
-  rewrite <- Hkg2 at 1.
-  assert (isKingPiece kg = true -> 1 <= kg <= 12 /\ isPawnPiece kg = false).
-  { unfold isKingPiece, isPawnPiece, WKING, BKING, WPAWN, BPAWN. intro Hx.
-    apply orb_prop in Hx. destruct Hx as [Hx|Hx]; apply N.eqb_eq in Hx; subst; split; auto; lia. }
-  apply St_mPNP; auto; try lia; rewrite ?Hkg2; try tauto.
-  subst t. nth_eval. auto.
-Qed.
-
-Lemma quiet_castleQ k sqs wm h fm cm ep cur kg rk :
-  St k sqs (wm, h, fm, cm, ep) cur -> 4 <= f -> f < 64 -> t = f - 2 ->
-  nthP sqs f = kg -> isKingPiece kg = true -> nthP sqs t = EMPTY ->
-  nthP sqs (f - 1) = EMPTY -> nthP sqs (f - 4) = rk -> 1 <= rk <= 12 -> isPawnPiece rk = false ->
-  St k (updN t kg (updN f EMPTY (updN (f - 1) rk (updN (f - 4) EMPTY sqs)))) (wm, (h + 1)%Z, fm, cm, ep)
-     (mmQuietBranch zk cur m (sqMask f)).
-Proof.
-  intros S Hf4 Hf Ht Hkg Hk Hte H1 H3 Hr Hnp.
-  assert (Hlen := St_len _ _ _ _ S).
-  unfold mmQuietBranch. cbv zeta.
-  destruct (St_scalars _ _ _ _ _ _ _ _ S) as (_ & Hh & _). rewrite Hh.
-  pose proof (St_set_hmc _ _ _ _ _ _ _ _ (h + 1)%Z S) as S1.
-  unfold mmCastleBlock. cbv zeta. fold f t.
-  rewrite (kingsAt_spec zk k) by (try apply S1; auto; lia).
-  rewrite (St_getPiece _ _ _ _ f S1), Hkg, Hk.
-  replace (Z.of_N t =? sqPlus f 2)%Z with false by (symmetry; apply Z.eqb_neq; unfold sqPlus; lia).
-  replace (Z.of_N t =? sqPlus f (-2))%Z with true by (symmetry; apply Z.eqb_eq; unfold sqPlus; lia).
-  replace (toSq (sqPlus f (-4))) with (f - 4) by (unfold toSq, sqPlus; lia).
-  replace (toSq (sqPlus f (-1))) with (f - 1) by (unfold toSq, sqPlus; lia).
-  assert (S2 : St k (updN (f - 1) rk (updN (f - 4) EMPTY sqs)) (wm, (h + 1)%Z, fm, cm, ep)
-                  (movePieceNotPawn zk (set_halfMoveClock cur (h + 1)%Z) (f - 4) (f - 1))).
-  { rewrite <- H3. apply St_mPNP; auto; rewrite ?H3; auto; lia. }
-  assert (Hkg2 : nthP (updN (f - 1) rk (updN (f - 4) EMPTY sqs)) f = kg) by (nth_eval; auto).
-  rewrite <- Hkg2 at 1.
-  assert (isKingPiece kg = true -> 1 <= kg <= 12 /\ isPawnPiece kg = false).
-  { unfold isKingPiece, isPawnPiece, WKING, BKING, WPAWN, BPAWN. intro Hx.
-    apply orb_prop in Hx. destruct Hx as [Hx|Hx]; apply N.eqb_eq in Hx; subst; split; auto; lia. }
-  apply St_mPNP; auto; try lia; rewrite ?Hkg2; try tauto.
-  subst t. nth_eval. auto.
-Qed.
-
-End Blocks.
-
-End Walk.
